@@ -129,7 +129,7 @@ def denMinMax (env : Env) (isMin : Bool) (cur : Option Value) : List Expr → R
       match cur with
       | none => denMinMax env isMin (some v) cs
       | some m =>
-        let better ← if isMin then Value.lt v m else Value.lt m v
+        let better ← Value.better isMin v m
         denMinMax env isMin (some (if better then v else m)) cs
 def denList (env : Env) : List Expr → Except Err (List Value)
   | [] => pure []
@@ -287,7 +287,7 @@ def evalMinMax (cached : Bool) (env : Env) (isMin : Bool) (cur : Option Value) :
       match cur with
       | none => evalMinMax cached env isMin (some v) cs
       | some m =>
-        let better ← EvM.lift (if isMin then Value.lt v m else Value.lt m v)
+        let better ← EvM.lift (Value.better isMin v m)
         evalMinMax cached env isMin (some (if better then v else m)) cs
 def evalList (cached : Bool) (env : Env) : List Expr → EvM (List Value)
   | [] => EvM.pure []
@@ -299,5 +299,12 @@ end
 
 def evalG (cached : Bool) (env : Env) (e : Expr) : EvM Value :=
   withMemo cached e (evalNode cached env e)
+
+/-- A history of calls on one evaluator instance, starting from state `s`. -/
+def runHist (cached : Bool) (env : Env) : List Expr → EvState → List R
+  | [], _ => []
+  | e :: es, s =>
+    let (r, s') := evalG cached env e s
+    r :: runHist cached env es s'
 
 end PV
